@@ -565,10 +565,16 @@ class BayesianNetwork(DAG):
             n_prev_samples = data.shape[0]
 
         # Step 1: Compute the pseudo_counts for the dirichlet prior.
-        pseudo_counts = {
-            var: compat_fns.to_numpy(self.get_cpds(var).get_values()) * n_prev_samples
-            for var in data.columns
-        }
+        pseudo_counts = {}
+        for var in data.columns:
+            cpd = self.get_cpds(var)
+            # The estimators lay out the columns in the order of the sorted parents.
+            sorted_parents = sorted(cpd.variables[1:])
+            if sorted_parents != list(cpd.variables[1:]):
+                values = cpd.reorder_parents(sorted_parents, inplace=False)
+            else:
+                values = cpd.get_values()
+            pseudo_counts[var] = compat_fns.to_numpy(values) * n_prev_samples
 
         # Step 2: Get the current order of state names for aligning pseudo counts.
         state_names = {}
